@@ -104,8 +104,10 @@ class Geo:
         self.edges = edges
         self.pos = {s: k for k, s in enumerate(self.sites)}
         self.dims = [int(tn.ind_size(tn.site_ind(s))) for s in self.sites]
-        self.psi = np_dense(tn_tensors(tn), [tn.site_ind(s) for s in self.sites])
+        # the network denotes (product of the tensors) * 10**exponent
+        self.psi = np_dense(tn_tensors(tn), [tn.site_ind(s) for s in self.sites]) * 10.0 ** float(tn.exponent)
         self.den = int(round(float(np.vdot(self.psi, self.psi).real)))
+        self.expo = ""
         self.neigh = {s: set() for s in self.sites}
         tid2site = {}
         for s in self.sites:
@@ -145,7 +147,7 @@ class Geo:
                             shp[ax] = -1
                             t[1] = t[1] * g.reshape(shp)
                             break
-                psig = np_dense([(i, a) for i, a in ts], [tng.site_ind(s) for s in self.sites])
+                psig = np_dense([(i, a) for i, a in ts], [tng.site_ind(s) for s in self.sites]) * 10.0 ** float(tng.exponent)
                 good = bool(np.all(np.isfinite(psig))) and float(np.abs(psig - self.psi).max()) <= 1e-12 * max(1.0, float(np.abs(self.psi).max()))
                 good = good and all(np.all(np.isfinite(np.asarray(g))) and float(np.min(np.abs(np.asarray(g)))) > 1e-6 for g in gauges.values())
             except Exception:  # noqa
@@ -251,6 +253,30 @@ def geo_from_state(cls, dims, psi):
         tn = qtn.TensorNetwork(ts).view_as_(qtn.TensorNetworkGenVector, sites=(0, 1), site_tag_id="I{}", site_ind_id="k{}")
         sites = [0, 1]
     return Geo(cls, tn, sites, "%s from TLC state dims=%s" % (cls, list(dims)), edges=[(0, 1)])
+
+
+def with_exponent(geo, how, rng):
+    """the same state written with a non-zero stored exponent (the dense state, measured again with numpy
+    including 10**exponent, must still be the Gaussian-integer one: otherwise None)"""
+    tn = geo.tn.copy()
+    if how == "equalize":
+        tn.equalize_norms_(rng.choice([1.0, 2.0]))
+    elif how == "strip":
+        for tid in rng.sample(list(tn.tensor_map), min(2, tn.num_tensors)):
+            tn.strip_exponent(tid, rng.choice([1.0, 0.5]))
+    else:
+        e = rng.choice([1.0, -1.0, 2.0])
+        tn.exponent = e
+        t = tn.tensor_map[rng.choice(list(tn.tensor_map))]
+        t.modify(data=np.asarray(t.data) * 10.0 ** (-e))
+    if float(tn.exponent) == 0.0:
+        return None
+    g = Geo(geo.cls, tn, geo.sites, geo.desc + " exponent(%s)=%.4g" % (how, float(tn.exponent)), edges=geo.edges)
+    if g.den != geo.den or float(np.abs(g.psi - geo.psi).max()) > 1e-9 * max(1.0, float(np.abs(geo.psi).max())):
+        return None
+    g.psi = geo.psi          # the exact integers
+    g.expo = how
+    return g
 
 
 # --------------------------------------------------------------------------- site tuple shapes
@@ -387,6 +413,24 @@ def r_gloop(geo, where, G, nrm, rng, bare=False):
         norm_arg = rng.choice([True, True, "prod"] if kw["combine"] == "prod" else [True, "local", "separate"])
     desc = "gauges=%s,normalized=%s,%s" % ("converged" if use_g else "{}", norm_arg, ",".join("%s=%s" % kv for kv in sorted(kw.items())))
     return tn.local_expectation_gloop_expand(G, w, gloops=[span], gauges=gauges, normalized=norm_arg, **kw), desc
+
+
+def r_compute_gloop(geo, where, G, nrm, rng, bare=False):
+    """compute_local_expectation_gloop_expand with ONE supplied spanning cluster, every normalisation mode"""
+    tn, gauges = geo.tn, {}
+    tng, gg = geo.gauged()
+    if tng is not None and rng.random() < 0.6:
+        tn, gauges = tng, gg
+    combine = rng.choice(["prod", "sum"])
+    norm_arg = False
+    if nrm:
+        norm_arg = rng.choice(["global", "global", True, "prod"] if combine == "prod" else ["global", True, "local", "separate"])
+    ra = rng.random() < 0.5
+    key = _terms_key(where, bare)
+    desc = "gauges=%s,normalized=%s,combine=%s,return_all=%s" % ("converged" if tn is not geo.tn else "{}", norm_arg, combine, ra)
+    x = tn.compute_local_expectation_gloop_expand({key: G}, gloops=[tuple(geo.sites)], gauges=gauges, combine=combine,
+                                                  normalized=norm_arg, autoreduce=False, return_all=ra)
+    return (x[key] if ra else x), desc
 
 
 def r_gloop_tree_reduce(geo, where, G, nrm, rng, bare=False):
@@ -593,6 +637,7 @@ EXPECT_ROUTES = {
     "local_expectation_compressed": r_compressed,
     "compute_local_expectation_compressed": r_compute_compressed,
     "local_expectation_gloop_expand": r_gloop,
+    "compute_local_expectation_gloop_expand": r_compute_gloop,
     "local_expectation_gloop_expand_reduced": r_gloop_tree_reduce,
     "local_expectation_gloop_expand_auto": r_gloop_auto,
     "local_expectation_sloop_expand": r_sloop,
